@@ -166,6 +166,15 @@ def literal(node):
     raise ValueError
 
 
+class _Resume(ast.stmt):
+    """synthetic statement: the end of a helper that was called as a statement — continue in the caller's scope"""
+    _fields = ()
+
+    def __init__(self, caller_env, depth):
+        super().__init__()
+        self.caller_env, self.depth = caller_env, depth
+
+
 class Translator:
     def __init__(self, src: str, module=None):
         tree = ast.parse(src)
@@ -462,8 +471,39 @@ class Translator:
         if not stmts:
             bad(self.fns[self.cur], "method may end without a return")
         st, rest = stmts[0], stmts[1:]
+        if isinstance(st, _Resume):
+            # back in the caller: its locals, the callback binding of the current path; lookups bound before the call
+            # are dropped (the helper may have written the gene table)
+            env2 = copy.deepcopy(st.caller_env)
+            env2["present"] = {}
+            env2["cb"] = env.get("cb")
+            self.depth = st.depth
+            return self.body(rest, env2, ind)
         if is_print(st) or is_doc(st) or isinstance(st, ast.Pass):
             return self.body(rest, env, ind)
+        # `self._helper(args)` as a STATEMENT: a private helper without a result (no `return <value>`, no early return) is
+        # inlined, its parameters bound to the caller's values, the caller continues after its last statement
+        if isinstance(st, ast.Expr) and isinstance(st.value, ast.Call) and not is_print(st) \
+                and self.helper(st.value) is not None:
+            fn, params = self.helper(st.value)
+            hb = [x for x in fn.body if not is_doc(x)]
+            if hb and isinstance(hb[-1], ast.Return) and (hb[-1].value is None or (
+                    isinstance(hb[-1].value, ast.Constant) and hb[-1].value.value is None)):
+                hb = hb[:-1]
+            if any(isinstance(x, ast.Return) for s_ in hb for x in ast.walk(s_)):
+                bad(st, f"helper {fn.name} called as a statement returns early / returns a value")
+            env2 = {"locals": {}, "present": dict(env["present"]), "cb": env.get("cb"), "retk": []}
+            for pn, a in zip(params, st.value.args):
+                if isinstance(a, ast.Name) and a.id in env["locals"]:
+                    env2["locals"][pn] = env["locals"][a.id]          # by reference (same Lean variable)
+                else:
+                    env2["locals"][pn] = self.ex(a, env)
+            saved = self.depth
+            self.depth += 1
+            try:
+                return self.body(hb + [_Resume(env, saved)] + rest, env2, ind)
+            finally:
+                self.depth = saved
         if isinstance(st, ast.If):
             if droppable(st.body) and droppable(st.orelse):
                 for sub in ast.walk(st.test):
@@ -493,9 +533,12 @@ class Translator:
             mem, more = None, None
             if is_member(t):
                 mem, more = t, None
-            elif isinstance(t, ast.BoolOp) and isinstance(t.op, ast.And) and is_member(t.values[0]):
-                mem = t.values[0]
-                more = t.values[1] if len(t.values) == 2 else ast.BoolOp(op=ast.And(), values=t.values[1:])
+            elif isinstance(t, ast.BoolOp) and isinstance(t.op, ast.And) and any(is_member(v_) for v_ in t.values) \
+                    and not any(isinstance(x, ast.Call) for x in ast.walk(t)):
+                # conjuncts are call-free (no side effects), so their order does not matter
+                mem = next(v_ for v_ in t.values if is_member(v_))
+                others = [v_ for v_ in t.values if v_ is not mem]
+                more = others[0] if len(others) == 1 else ast.BoolOp(op=ast.And(), values=others)
             if mem is not None and any(isinstance(x, ast.Subscript) and is_self_attr(x.value, "_genes")
                                        and ast.unparse(x.slice) == ast.unparse(mem.left)
                                        for s_ in st.body for x in ast.walk(s_)):
